@@ -1,4 +1,5 @@
 import Gallia.Proofs.Lemmas.Lines
+import Gallia.Proofs.Lemmas.LinesExec
 /-
   C19 — Line-based transports deliver every message intact, in order, one per read.
   Property theorems only; helper lemmas are in `Proofs/Lemmas/Lines.lean`.
@@ -130,5 +131,133 @@ theorem serve_replies {σ} (h : σ → Bytes → σ × Option Bytes) (s : σ) (m
 /-- non-vacuity: a concrete burst with a partial tail -/
 example : readLine (enc [0x3e, 0x00] ++ enc [0x10, 0x01] ++ [0x33]) false = (.msg [0x3e, 0x00], enc [0x10, 0x01] ++ [0x33]) := by
   decide
+
+/-! ### the client as a whole execution (`Model/LinesExec.lean`: `cstep`, `crun`) -/
+
+/-- **client_trace_spec.**  For EVERY operation sequence (feeds cut anywhere, end-of-stream anywhere, reads, writes,
+    requests, close in any order): the result of the read (or request) at any position is determined by the message
+    sequence specification alone - it is the decoding of line number `k` of the stream delivered so far, where `k` is
+    the number of lines the earlier reads handed out (so: in order, each once); when the delivered stream holds no
+    further complete line it is `eos` if the stream has ended and `pending` (the read blocks / times out) otherwise. -/
+theorem client_trace_spec (pre post : List Op) (op : Op) (hop : op = .read ∨ ∃ m, op = .request m) :
+    (crun {} (pre ++ op :: post)).2[pre.length]? =
+      some (.res (specRead (fedBytes false pre) (lineResults (crun {} pre).2).length (eofSeen false pre))) := by
+  obtain ⟨extra, hR, hl, he⟩ := rel_run pre rel_init
+  have h1 := (rel_read hR).1
+  have hlen := crun_length ({} : Client) pre
+  simp only [List.nil_append] at h1 hl
+  rw [crun_append]
+  simp only [crun]
+  rw [List.getElem?_append_right (by omega), hlen, Nat.sub_self, List.getElem?_cons_zero, hl, List.length_map, ← he, ← h1]
+  rcases hop with rfl | ⟨m, rfl⟩ <;> simp [cstep]
+
+/-- `pending` exactly when no complete line is left and the stream is still open -/
+theorem read_pending_iff (S : Bytes) (k : Nat) (ended : Bool) :
+    specRead S k ended = .pending ↔ (linesOf S).length ≤ k ∧ ended = false := by
+  unfold specRead
+  cases h : (linesOf S)[k]? with
+  | some l =>
+    have := (List.getElem?_eq_some_iff.mp h).1
+    simp [(decodeLine_ne_pending l).1]; omega
+  | none => cases ended <;> simp [List.getElem?_eq_none_iff.mp h]
+
+/-- `eos` exactly when the stream has ended with no complete line left -/
+theorem read_eos_iff (S : Bytes) (k : Nat) (ended : Bool) :
+    specRead S k ended = .eos ↔ (linesOf S).length ≤ k ∧ ended = true := by
+  unfold specRead
+  cases h : (linesOf S)[k]? with
+  | some l =>
+    have := (List.getElem?_eq_some_iff.mp h).1
+    simp [(decodeLine_ne_pending l).2]; omega
+  | none => cases ended <;> simp [List.getElem?_eq_none_iff.mp h]
+
+/-- in order, each once: over any operation sequence the lines handed out by the reads are exactly the first `n`
+    lines of the stream delivered so far, `n` being their number -/
+theorem client_reads_in_order (ops : List Op) :
+    lineResults (crun {} ops).2 =
+      ((linesOf (fedBytes false ops)).take (lineResults (crun {} ops).2).length).map decodeLine := by
+  obtain ⟨extra, hR, hl, _⟩ := rel_run ops rel_init
+  have := rel_lines hR
+  simp only [List.nil_append] at this hl
+  rw [hl, this]
+  simp
+
+/-- ... and nothing is lost: once a read finds nothing (it blocks, or reports end-of-stream), every complete line of
+    the delivered stream has been handed out -/
+theorem client_drained (ops : List Op)
+    (h : (cstep (crun {} ops).1 .read).2 = .res .pending ∨ (cstep (crun {} ops).1 .read).2 = .res .eos) :
+    lineResults (crun {} ops).2 = (linesOf (fedBytes false ops)).map decodeLine := by
+  obtain ⟨extra, hR, hl, _⟩ := rel_run ops rel_init
+  have hlines := rel_lines hR
+  have hr := (rel_read hR).1
+  simp only [List.nil_append] at hlines hl hr
+  have hlen : (linesOf (fedBytes false ops)).length ≤ extra.length := by
+    simp only [cstep] at h
+    rcases h with h | h
+    · injection h with h; rw [hr] at h; exact ((read_pending_iff _ _ _).mp h).1
+    · injection h with h; rw [hr] at h; exact ((read_eos_iff _ _ _).mp h).1
+  have : linesOf (crun {} ops).1.buf = [] := by
+    rw [hlines] at hlen
+    simp at hlen
+    exact List.eq_nil_of_length_eq_zero (by omega)
+  rw [hl, hlines, this]; simp
+
+/-- messages in, messages out: when the delivered bytes are the encodings of `ms` (cut and interleaved with reads,
+    writes and timeouts in any way) plus an incomplete tail, the reads hand out a prefix of `ms`, intact and in order -/
+theorem client_delivers_messages (ops : List Op) (ms : List Bytes) (tail : Bytes) (ht : NL ∉ tail)
+    (hfed : fedBytes false ops = (ms.map enc).flatten ++ tail) :
+    lineResults (crun {} ops).2 = (ms.take (lineResults (crun {} ops).2).length).map ReadRes.msg := by
+  have h := client_reads_in_order ops
+  rw [hfed, linesOf, frames_exact ms tail ht] at h
+  refine h.trans ?_
+  simp only [← List.map_take, List.map_map]
+  apply List.map_congr_left
+  intro m _
+  simp [decodeLine, strip_hexB, unhexB_hexB_append]
+
+/-- a timed-out read consumes nothing - over sequences: a read that blocks, placed anywhere in any execution, leaves
+    the final state and every other observation exactly as if it had not been issued -/
+theorem timed_out_read_consumes_nothing (c : Client) (pre post : List Op)
+    (h : (cstep (crun c pre).1 .read).2 = .res .pending) :
+    crun c (pre ++ .read :: post) =
+      ((crun c (pre ++ post)).1, (crun c pre).2 ++ .res .pending :: (crun (crun c pre).1 post).2) := by
+  rw [crun_append, crun_append]
+  simp only [crun, h, cstep_read_pending h]
+
+/-! ### write side -/
+
+/-- `write(msg)` hands exactly `hex(msg) ++ "\n"` to the stream, for every message (no length limit), appends it to
+    what was written before, touches nothing else and returns `len(msg)`; a burst of writes puts the encodings on the
+    wire in order -/
+theorem write_emits_exactly (c : Client) (ms : List Bytes) :
+    (crun c (ms.map .write)).1 = { c with out := c.out ++ (ms.map (fun m => hexB m ++ [NL])).flatten } ∧
+    (crun c (ms.map .write)).2 = ms.map (fun m => .wrote m.length) := by
+  have e : (ms.map enc) = ms.map (fun m => hexB m ++ [NL]) := rfl
+  constructor <;> simp [crun_writes, e]
+
+/-- the wire form of a message of `n` bytes is `2 n + 1` bytes long, whatever `n` is -/
+theorem enc_length (m : Bytes) : (enc m).length = 2 * m.length + 1 := by
+  have : ∀ m : Bytes, (hexB m).length = 2 * m.length := by
+    intro m; induction m with
+    | nil => rfl
+    | cons b t ih => simp [hexB, ih]; omega
+  simp [enc, this]
+
+/-- `request()` is `write` followed by `read` (`request_unsafe`; the mutex of `request()` makes the pair atomic
+    among the users of one transport - C05): in any execution a request can be replaced by the two operations -/
+theorem request_is_write_then_read (c : Client) (pre post : List Op) (m : Bytes) :
+    (crun c (pre ++ .request m :: post)).1 = (crun c (pre ++ .write m :: .read :: post)).1 ∧
+    (crun c (pre ++ .request m :: post)).2 =
+      (crun c pre).2 ++ (crun c (pre ++ .write m :: .read :: post)).2.drop (pre.length + 1) := by
+  rw [crun_append, crun_append]
+  simp only [crun, cstep]
+  refine ⟨trivial, ?_⟩
+  rw [List.drop_append]
+  simp [crun_length]
+
+/-- non-vacuity of the whole-execution theorems: a script with a split hex digit pair, a timeout inside the line,
+    two lines in one chunk and the end of the stream inside a line -/
+example : (crun {} [.feed [0x33], .read, .feed [0x65, 0x0A, 0x31, 0x30, 0x0A, 0x32], .read, .read, .read, .eof, .read]).2 =
+    [.ok, .res .pending, .ok, .res (.msg [0x3e]), .res (.msg [0x10]), .res .pending, .ok, .res .eos] := by decide
 
 end Gallia.C19
